@@ -94,6 +94,7 @@ def determinism_stage(tier_, key):
         build_harness()
         q = tier_ == "quick"
         J = corpus.Jobs("det-" + tier_)
+        groups = []
         for P in range(6):
             for _ in range(4 if q else 12):
                 J.seed_job(corpus.cfg(P, 200, 400))
@@ -101,11 +102,22 @@ def determinism_stage(tier_, key):
             J.seed_job(corpus.cfg(P, 150, 300, muts=corpus.MUTS, rate=0.5, ext=True, buf=True))
             J.bytes_job(corpus.cfg(P, 150, 300, muts=corpus.MUTS, rate=0.5, unsafe=True), blen=4000)
             J.seed_job(corpus.cfg(P))
+            # configurations that differ in ONE setting, generated in different orders by the threads /
+            # processes: anything cached across generator instances under too coarse a key shows up
+            grp = []
+            for ext in (False, True):
+                for buf in (False, True):
+                    grp.append(J.seed_job(corpus.cfg(P, 80, 160, ext=ext, buf=buf))["id"])
+            grp.append(J.seed_job(corpus.cfg(P, 80, 160, muts=["boundary"], rate=0.5))["id"])
+            grp.append(J.seed_job(corpus.cfg(P, 80, 160, muts=["boundary"], rate=0.5, unsafe=True))["id"])
+            grp.append(J.seed_job(corpus.cfg(P, 81, 160))["id"])
+            grp.append(J.bytes_job(corpus.cfg(P, 80, 160, ext=True), blen=2000)["id"])
+            groups.append(grp)
             if P >= 1:
                 # long programs: the memo grows beyond 256 entries (order-dependent choices among many keys)
                 J.seed_job(corpus.cfg(P, 4500, 6000))
                 if not q: J.bytes_job(corpus.cfg(P, 4500, 6000), blen=60000)
-        spec = {"jobs": J.jobs, "threads": 16, "procs": 3 if q else 6}
+        spec = {"jobs": J.jobs, "threads": 16, "procs": 3 if q else 6, "groups": groups}
         sf = os.path.join(d, "det_spec.json"); json.dump(spec, open(sf, "w"))
         of = os.path.join(d, "det.ndjson")
         run([PFV, "determinism", sf, of], timeout=3600)
